@@ -26,7 +26,7 @@ RULE = ("Rebalancing.make_trades on generated (holdings, targets, quotes, thresh
 ASSUMPTIONS = ["ties within 1e-12 relative of the threshold / 1e-9 of an integer lot accept both outcomes",
                "whole-lot mode: the threshold is compared with the weight of the imbalance itself (untruncated), as the property words it"]
 REQUIRED = ["C12:exact-threshold", "C12:trade-set", "C12:trade-wellformed", "C12:fractional-quantity", "C12:whole-lot-truncation", "C12:no-exception"]
-REQUIRED_CATS = ["mode:tiny", "mode:exact-at", "mode:exact-notch-below", "mode:exact-notch-above", "mode:at", "mode:below", "mode:above", "mode:sublot", "mode:absent-held", "whole-lot", "fractional"]
+REQUIRED_CATS = ["whole-lot-with-fractional-holding", "mode:tiny", "mode:exact-at", "mode:exact-notch-below", "mode:exact-notch-above", "mode:at", "mode:below", "mode:above", "mode:sublot", "mode:absent-held", "whole-lot", "fractional"]
 REQUIRED_HITS = ["Rebalancing.make_trades"]
 TECHNIQUE = "runtime monitoring: reference model of the stated filtering rule compared with Rebalancing.make_trades on boundary-biased inputs"
 LEVEL_TEXT = ("Exploration with boundary-biased generation: the real make_trades is compared with an independent evaluation of the "
@@ -101,7 +101,12 @@ def case(ctx, i, tier):
             unit = b.net_liquidation_value() / (q[c][1] * c.multiplier)
             dq = rng.choice([-1, 1]) * rng.uniform(0.05, 0.5) * unit
             if not frac:
-                dq = float(int(dq)) or 1.0
+                if rng.random() < 0.25 and 3 * q[c][1] * c.multiplier < 0.3 * b.net_liquidation_value():
+                    # a fractional left-over from earlier fractional trading (possibly below one lot)
+                    dq = rng.choice([-1, 1]) * rng.choice([0.4, 0.999, 2.5, rng.uniform(0.05, 3)])
+                    ctx.cat("whole-lot-with-fractional-holding")
+                else:
+                    dq = float(int(dq)) or 1.0
             b.transact(Trade(t, c, dq, *q[c], fees))
     thr = rng.choice([0, 0, 0.01, 0.05, 0.2])
     nlv = b.net_liquidation_value()
